@@ -15,6 +15,7 @@ mod c09;
 mod c11;
 mod tiered;
 mod c13;
+mod c19;
 mod common;
 mod crash;
 mod hist;
@@ -71,6 +72,7 @@ fn main() {
             "C05" => c05::replay(&plan, &mut sum),
             "C09" => c09::replay(&plan, &mut sum),
             "C11" => c11::replay(&plan, &mut sum),
+            "C19" => c19::replay(&plan, &mut sum),
             "C04" => c04::replay("C04", &plan, &mut sum),
             "C06" => c06::replay("C06", &plan, &mut sum),
             "C07" => c06::replay("C07", &plan, &mut sum),
@@ -91,6 +93,7 @@ fn main() {
             "C05" => c05::run_batch(seed, start, count, &tier, budget_ms, &mut sum),
             "C09" => c09::run_batch(seed, start, count, &tier, budget_ms, &mut sum),
             "C11" => c11::run_batch(seed, start, count, &tier, budget_ms, &mut sum),
+            "C19" => c19::run_batch(seed, start, count, &tier, budget_ms, &mut sum),
             "C04" => c04::run_batch("C04", seed, start, count, &tier, budget_ms, &mut sum),
             "C06" => c06::run_batch("C06", seed, start, count, &tier, budget_ms, &mut sum),
             "C07" => c06::run_batch("C07", seed, start, count, &tier, budget_ms, &mut sum),
